@@ -57,6 +57,11 @@ func (f *Field[T]) ToBitsCanonical(a *Element[T]) []frontend.Variable {
 	}
 	ca := f.ReduceStrict(a)
 	bts := f.ToBits(ca)
+	// an element on fewer limbs than the modulus has fewer bits: the missing
+	// most significant bits are zero
+	for len(bts) < nbBits {
+		bts = append(bts, 0)
+	}
 	return bts[:nbBits]
 }
 
